@@ -63,6 +63,8 @@ def simulate(program, deselected=None):
     for c in program.get("cleanups", []):
         hook_cleanups.setdefault(int(c["at"]), []).append(bool(c.get("raises")))
     deselected = deselected or set()
+    run_index = int(program.get("run_index", 0))
+    cont = bool(cfg.get("continue_after_failed"))
 
     ref = Ref()
     ref.calls = []
@@ -73,6 +75,8 @@ def simulate(program, deselected=None):
     ref.executed = set()    # instance names actually started
     ref.reasons = []        # why the run fails
     ref.hook_error_elems = []   # (kind, name) elements that must carry hook_error
+    ref.hook_error_steps = []   # (scenario name, uid) steps that must carry hook_error
+    ref.hook_owner = []         # parallel to ref.hooks: (kind, name) of the element a hook call belongs to
     ref.cleanup_error_elems = []
     ref.cleanup_expect = []     # cleanup ids in expected execution order
     ref.open_containers = set()
@@ -94,6 +98,7 @@ def simulate(program, deselected=None):
             return False
         k = len(ref.hooks)
         ref.hooks.append((name, ident, is_open))
+        ref.hook_owner.append((owner.kind, owner.name) if owner is not None else ("testrun", ""))
         for raises in hook_cleanups.get(k, ()):
             layers[-1].cleanups.append(("h%d" % k, raises))
         if k in faults:
@@ -145,7 +150,7 @@ def simulate(program, deselected=None):
         ref.selected.append(name)
         ref.executed.add(name)
         wip = "wip" in effective_tags(feature, inst)
-        outcomes = [step_outcome(s, row) for s in steps]
+        outcomes = [step_outcome(s, row, run_index) for s in steps]
         if dry:
             sts = ["undefined" if o == "undefined" else "untested" for o in outcomes]
             ref.steps[name] = sts
@@ -168,9 +173,17 @@ def simulate(program, deselected=None):
             running = True
             after_failure = False
             for s, o in zip(steps, outcomes):
-                if running:
+                if running and o == "undefined":
+                    # no definition: nothing to call, not even the step hooks
+                    sts.append("undefined")
+                    if not cont:
+                        running = False
+                        after_failure = True
+                    failed = True
+                    ref.reasons.append("step %s in %s -> undefined" % (s["uid"], name))
+                elif running:
                     # before_step / step / after_step
-                    step_layer = Layer("step", s["uid"])
+                    step_layer = Layer("step", (name, s["uid"]))
                     hook("before_step", s["uid"], step_layer)
                     if not step_layer.hook_failed:
                         if o not in ("undefined", "convert"):
@@ -183,10 +196,12 @@ def simulate(program, deselected=None):
                     hook("after_step", s["uid"], step_layer)
                     if step_layer.hook_failed:
                         status = "hook_error"
+                        ref.hook_error_steps.append((name, s["uid"]))
                     sts.append(status)
                     if status in ("failed", "error", "undefined", "pending", "hook_error"):
-                        running = False
-                        after_failure = True
+                        if not cont:
+                            running = False
+                            after_failure = True
                         failed = True
                         ref.reasons.append("step %s in %s -> %s" % (s["uid"], name, status))
                         if o == "interrupt" and status == "error":
